@@ -116,7 +116,7 @@ def get_attribute(ctx, obj, name):
         raise Unsupported('class attribute %s.%s not modelled' % (obj.__name__, name))
     if isinstance(obj, dict) and name in ('get', 'items', 'keys', 'values', 'setdefault', 'pop', 'copy', 'update'):
         return DictMethod(obj, name)
-    if isinstance(obj, list) and name in ('append', 'extend', 'pop', 'index', 'insert', 'copy', 'count', 'reverse', 'sort'):
+    if isinstance(obj, list) and name in ('append', 'extend', 'pop', 'index', 'insert', 'copy', 'count', 'reverse', 'sort', 'remove'):
         return ListMethod(obj, name)
     if isinstance(obj, tuple) and name in ('index', 'count'):
         return ListMethod(obj, name)
@@ -255,6 +255,14 @@ class ListMethod:
                 if ctx.branch(zbool(r) if not isinstance(r, bool) else r):
                     return i
             raise PyRaise('ValueError', note='not in sequence')
+        elif self.name == 'remove':
+            # list.remove(x): delete the first item equal to x, ValueError if there is none (exact; forks on symbolic equality)
+            for i, x in enumerate(l):
+                r = ops.compare(ctx, '==', x, a[0])
+                if ctx.branch(zbool(r) if not isinstance(r, bool) else r):
+                    del l[i]
+                    return None
+            raise PyRaise('ValueError', note='list.remove(x): x not in list')
         elif self.name == 'count':
             r = 0
             for x in l:
